@@ -733,6 +733,12 @@ func genC05(r *world.Rng, w *world.World, big bool) {
 				t.Text = dimacsText(r, t.N, t.Clauses, false)
 			}
 		}
+		if r.Bool(0.12) { // larger, near the threshold: few models, real search between them
+			t.N = r.Range(12, 16)
+			t.Clauses = randKSAT(r, t.N, int(float64(t.N)*(3.9+0.6*r.Float())), 3, 3)
+			t.Route = "slicenb"
+			t.Text = ""
+		}
 		if r.Bool(0.1) { // fully decided at parse time
 			t.N = r.Range(1, 6)
 			t.Clauses = [][]int{}
@@ -805,6 +811,10 @@ func genC04(r *world.Rng, w *world.World, big bool) {
 	t := world.TaskSpec{Kind: "maxsat"}
 	n := r.Range(1, 9)
 	m := r.Range(1, 12)
+	if r.Bool(0.25) { // many soft constraints with spread-out weights: several improvement steps
+		n = r.Range(5, 10)
+		m = r.Range(10, 18)
+	}
 	wcnf := r.Bool(0.45)
 	var soft []world.Soft
 	var poolVec []int
@@ -852,6 +862,11 @@ func genC04(r *world.Rng, w *world.World, big bool) {
 		wgt := 0
 		if r.Bool(0.6) {
 			wgt = r.Pick(1, 1, 2, 3, 5, 10)
+			if m >= 10 {
+				wgt = r.Range(1, 12)
+			}
+		} else if m >= 10 && r.Bool(0.6) {
+			wgt = r.Range(1, 12)
 		}
 		soft = append(soft, world.Soft{Con: c, Weight: wgt, Form: form})
 	}
@@ -1064,10 +1079,15 @@ func genC16(r *world.Rng, w *world.World, big bool) {
 			t = sub.Tasks[0]
 		case 9:
 			sub := world.World{}
-			if r.Bool(0.5) {
+			switch r.Intn(4) {
+			case 0:
 				genC08(r, &sub, big)
-			} else {
+			case 1:
 				genBF(r, &sub)
+			case 2:
+				genC09(r, &sub, big)
+			default:
+				genC10(r, &sub, big)
 			}
 			t = sub.Tasks[0]
 		}
